@@ -376,34 +376,10 @@ theorem negAgree_of (i : Input) (f : Fam) (hl : simpleCaps i.loc = true) (hr : s
   · -- add-path direction
     simp only [Codec.addpathTx, lookup_fams, pl, pr, hfl, hfr, if_true, both, addPathTx, famNegotiated,
       Bool.and_self, Bool.true_and, bit0, bit1]
-  · -- extended next hop
-    rw [Bool.eq_iff_iff]
-    simp only [negotiate, extNhNegotiated, List.any_eq_true, List.mem_filterMap, Option.map_eq_some_iff,
-      Bool.and_eq_true, beq_iff_eq]
-    constructor
-    · rintro ⟨⟨g, lc, rc⟩, ⟨⟨g', rc'⟩, hmem, lc', hlc, heq⟩, hel, her⟩
-      simp only [Prod.mk.injEq] at heq
-      obtain ⟨rfl, rfl, rfl⟩ := heq
-      have hrc := (mem_iff_lookup _ (nodup_keys_parseCaps i.rem) g' rc').mp hmem
-      rw [pr] at hrc
-      rw [pl] at hlc
-      by_cases hml : hasMp i.loc g' = true
-      · by_cases hmr : hasMp i.rem g' = true
-        · rw [if_pos hml] at hlc; rw [if_pos hmr] at hrc
-          injection hlc with hlc; injection hrc with hrc
-          subst hlc; subst hrc
-          simp only [Bool.and_eq_true, beq_iff_eq] at hel her
-          refine ⟨g', ?_, ⟨⟨⟨hel.1, hmr⟩, hel.2⟩, her.2⟩⟩
-          simpa [hasMp] using hml
-        · rw [if_neg hmr] at hrc; cases hrc
-      · rw [if_neg hml] at hlc; cases hlc
-    · rintro ⟨g, hg, ⟨⟨⟨ha1, hmr⟩, hel⟩, her⟩⟩
-      have hml : hasMp i.loc g = true := by simpa [hasMp] using hg
-      refine ⟨(g, ⟨apMode i.loc g, g.afi == 1 && hasEnh i.loc g⟩, ⟨apMode i.rem g, g.afi == 1 && hasEnh i.rem g⟩),
-        ⟨(g, ⟨apMode i.rem g, g.afi == 1 && hasEnh i.rem g⟩), ?_, ⟨apMode i.loc g, g.afi == 1 && hasEnh i.loc g⟩, ?_, rfl⟩, ?_, ?_⟩
-      · rw [mem_iff_lookup _ (nodup_keys_parseCaps i.rem), pr, if_pos hmr]
-      · rw [pl, if_pos hml]
-      · simp [ha1, hel]
-      · simp [ha1, her]
+  · -- extended next hop: in force for IPv4 unicast iff both sides listed the tuple (1, 1, 2)
+    have ha : (Fam.ipv4.afi == 1) = true := rfl
+    simp only [Codec.extNh, lookup_fams, pl, pr, extNhNegotiated, enhNegotiated, famNegotiated]
+    cases h1 : hasMp i.loc Fam.ipv4 <;> cases h2 : hasMp i.rem Fam.ipv4 <;>
+      simp [both, ha, Bool.and_comm, Bool.and_left_comm]
 
 end Rbgp.Enc
